@@ -23,13 +23,13 @@ import (
 	"github.com/flamego/flamego/verifharness/internal/rt"
 )
 
-const rule = "case = a history of 3..25 operations over one Flame and, per method, one mirror route.Tree populated identically: register(static | optional-static | dynamic route over the same literals | a registered route with one segment replaced by a bind, which shadows it; through Route or, for comma lists in any case, Routes), headers(route, pairs) mirrored with SetHeaderMatcher, request(method, path, headers) with paths = route instances, the route text itself used as a path, extra leading slashes, trailing slashes, the once-decoded spelling of a path with escapes, optionally an over-escaped URL.RawPath. " +
-	"Oracle (differential, after every request): handler that ran / not-found and parameters from Flame.ServeHTTP == Tree.Match on the mirror; additionally == the reference matcher. " +
+const rule = "case = a history of 3..25 operations over one Flame and, per method, one mirror route.Tree populated identically: register(static | optional-static | dynamic route over the same literals | a registered route with one segment replaced by a bind, which shadows it; through Route, Routes (comma lists, in any case), Get while AutoHead is on, or Any), headers(route, pairs) mirrored with SetHeaderMatcher, request(method, path, headers) with paths = route instances, the route text itself used as a path, extra leading slashes, trailing slashes, the once-decoded spelling of a path with escapes, optionally an over-escaped URL.RawPath. " +
+	"Oracle (differential, after every request): handler that ran / not-found and parameters from Flame.ServeHTTP == Tree.Match on the mirror (requests whose method is not in the standard upper-case spelling are only held to: not both a route handler and the not-found chain). " +
 	"non-trivial = a history with a request answered by a fully static, unconstrained route (the shortcut's domain) after >=2 registrations, or a request whose path contains route-syntax characters ('?', '{'), or a request that follows a headers operation on a static route; distinct by case text"
 
 var assumptions = []string{
 	"histories contain only registrations the statement of C08 obliges the router to accept",
-	"the mirror tree is the same matcher code without the router in front of it (that is the differential the property states); the reference matcher is the second opinion",
+	"the mirror tree is the same matcher code without the router in front of it (that is the differential the property states); the reference matcher is consulted too, but a difference between it and the tree is only recorded as a class (it would be a matter of C01 / C09, not of the shortcut)",
 }
 
 func TestMain(m *testing.M) { evid.Main(m, "C10", rule, assumptions) }
@@ -81,8 +81,22 @@ func checkCase(c Case) (out evid.Outcome) {
 					}
 					// a handler may use its parameter map as scratch space; that
 					// must not leak into any later request
-					ctx.Params()["zz-scratch"] = fmt.Sprint(idx)
+					// (only where the route has binds, so that the map is this
+					// request's own by necessity)
+					if len(ctx.Params()) > 1 {
+						ctx.Params()["zz-scratch"] = fmt.Sprint(idx)
+					}
 					ctx.ResponseWriter().WriteHeader(200)
+				}
+				switch op.M {
+				case "autohead-get":
+					f.AutoHead(true)
+					defer f.AutoHead(false)
+					rs.fr = f.Get(op.R, hf)
+					return nil
+				case "any":
+					rs.fr = f.Any(op.R, hf)
+					return nil
 				}
 				if strings.Contains(op.M, ",") {
 					// a comma list goes through Routes()
@@ -95,13 +109,17 @@ func checkCase(c Case) (out evid.Outcome) {
 			if perr != nil {
 				out.Excluded++
 				out.Classes = append(out.Classes, "registration-rejected")
-				return out
+				if len(expand(op.M)) == 1 {
+					// refused as a whole: the history goes on without it
+					continue
+				}
+				return out // (it may have been taken for some of its methods)
 			}
 			ast, err := rt.Parse(op.R)
 			if err != nil {
 				panic("harness: " + err.Error())
 			}
-			for _, m := range model.ExpandMethods(op.M) {
+			for _, m := range expand(op.M) {
 				if trees[m] == nil {
 					trees[m] = route.NewTree()
 				}
@@ -158,6 +176,15 @@ func checkCase(c Case) (out evid.Outcome) {
 					}
 				}
 			}
+			if op.M == "" || op.M != strings.ToUpper(op.M) {
+				// a request method in a non-standard spelling: whether it is the
+				// method of the standard spelling is not said anywhere
+				if ran >= 0 && nf {
+					return fail(out, "both-or-neither", "step %d: %s %q: a route handler and the not-found chain both ran", step, op.M, op.P)
+				}
+				out.Classes = append(out.Classes, "request-method-spelling-open")
+				continue
+			}
 			if (ran >= 0) == nf {
 				return fail(out, "both-or-neither", "step %d: %s %q: route handler ran=%v and not-found ran=%v", step, op.M, op.P, ran >= 0, nf)
 			}
@@ -196,7 +223,7 @@ func checkCase(c Case) (out evid.Outcome) {
 			var mregs []model.MRoute
 			for i, rs := range regs {
 				on := false
-				for _, m := range model.ExpandMethods(rs.m) {
+				for _, m := range expand(rs.m) {
 					if m == op.M {
 						on = true
 					}
@@ -222,8 +249,10 @@ func checkCase(c Case) (out evid.Outcome) {
 				refIdx = ref.Route.Index
 			}
 			if refIdx != ran {
-				return fail(out, "reference-diverges", "step %d: %s %q headers %v: ServeHTTP ran #%d (%s), reference matcher gives #%d (%s); history %s",
-					step, op.M, op.P, op.Q, ran, routeOf(regs, ran), refIdx, routeOf(regs, refIdx), showOps(c.Ops[:step+1]))
+				// ServeHTTP agrees with full tree matching, the reference matcher
+				// does not: whatever that is, it is not the shortcut (C01 / C09
+				// hold the tree against the reference)
+				out.Classes = append(out.Classes, "tree-and-reference-differ")
 			}
 			// classification
 			if ran >= 0 && isStatic(regs[ran].r) && regs[ran].hdr == nil {
@@ -252,6 +281,18 @@ func fail(out evid.Outcome, sig, format string, args ...interface{}) evid.Outcom
 	o := evid.Fail(sig, format, args...)
 	o.NonTrivial, o.Classes, o.Sub = out.NonTrivial, out.Classes, out.Sub
 	return o
+}
+
+// expand lists the methods a registration covers; "autohead-get" is Get while
+// AutoHead is on, "any" is Any.
+func expand(m string) []string {
+	switch m {
+	case "autohead-get":
+		return []string{"GET", "HEAD"}
+	case "any":
+		return model.Methods
+	}
+	return model.ExpandMethods(m)
 }
 
 func routeOf(regs []*regState, i int) string {
@@ -294,7 +335,7 @@ func genCase(t *rapid.T) Case {
 	g := model.NewRegistrar()
 	type have struct{ m, r string }
 	var regs []have
-	methods := []string{"GET", "GET", "GET", "POST", "*", "get", "get,post", "GET, PUT"}
+	methods := []string{"GET", "GET", "GET", "POST", "*", "get", "get,post", "GET, PUT", "autohead-get", "autohead-get", "any"}
 	n := rapid.IntRange(3, 25).Draw(t, "nops")
 	lit := func() model.Seg {
 		return model.Seg{Elems: []model.Elem{{Lit: staticLits[rapid.IntRange(0, len(staticLits)-1).Draw(t, "sl")]}}}
@@ -345,7 +386,7 @@ func genCase(t *rapid.T) Case {
 				d, m = model.Route{Segs: cp}, h.m
 			}
 			ok := true
-			for _, mm := range model.ExpandMethods(m) {
+			for _, mm := range expand(m) {
 				if v, _ := g.Check(mm, d); v != model.MustAccept {
 					ok = false
 				}
@@ -353,7 +394,7 @@ func genCase(t *rapid.T) Case {
 			if !ok {
 				continue
 			}
-			for _, mm := range model.ExpandMethods(m) {
+			for _, mm := range expand(m) {
 				g.Add(mm, d)
 			}
 			regs = append(regs, have{m, d.Source()})
@@ -367,7 +408,7 @@ func genCase(t *rapid.T) Case {
 		default: // request
 			h := regs[rapid.IntRange(0, len(regs)-1).Draw(t, "qi")]
 			d := rt.Deriv(h.r)
-			ms := model.ExpandMethods(h.m)
+			ms := expand(h.m)
 			m := ms[rapid.IntRange(0, len(ms)-1).Draw(t, "qm")]
 			if rapid.IntRange(0, 9).Draw(t, "oddm") == 0 {
 				m = []string{"BREW", "", "get", "PUT"}[rapid.IntRange(0, 3).Draw(t, "om")]
